@@ -1,6 +1,26 @@
-ENTRY = {'modules': ['VirtioVerif.Props.C07'],
- 'assumptions': ['PARTIAL: memory safety proper (no out-of-bounds or use-after-free access inside the unsafe blocks) is not exhibited by the model; the model carries the logic (which indices index what, what is unshared, which slice bounds are handed out) with Rust panics as explicit outcomes, and the executable behaviour is compared with the real code',
-                 'the caller follows the contract of the unsafe fns (polls only tokens it holds, with their buffers); the device is unconstrained',
-                 'driver-level slice bounds (OwningQueue / input / sound / vsock / net / console) are carried by the theorems of C19Drivers, C18, C16, C15 and exercised here through their hostile streams'],
- 'explanation': 'Theorems: (i) for every history with ARBITRARY device writes to the used ring, used index, flags and event index (the device steps of the op language take any values), a contract-following caller never sees a panic and the structural invariant (exact descriptor accounting, pairwise disjoint chains) is preserved (hostile_device_harmless, from the invariant proofs); a foreign or out-of-range id is rejected with WrongToken without effect; (ii) NON-INTERFERENCE: results, platform calls, stores and the driver-private successor state of add / pop_used / the queries do not depend on the contents of the descriptor table, available ring, avail.idx, avail.flags, used_event (add_noninterference, pop_noninterference, queries_noninterference). Correspondence: hostile-device stream on the real queue (never-issued / out-of-range / u16-aliasing / repeated ids, arbitrary lengths, index jumps, scribbling over driver-owned areas) compared with the model on results, private state and platform events, with ledger (double unshare, unknown address) and accounting oracles; plus the hostile / malformed streams of the event-queue, console, net and vsock modules.',
- 'technique': 'Lean 4 invariant + non-interference theorems over an executable model, differential correspondence under a hostile device, ledger oracles'}
+ENTRY = {'modules': ['VirtioVerif.Props.C07', 'VirtioVerif.Props.C04Ledger'],
+ 'assumptions': ['PARTIAL: memory safety proper (no out-of-bounds or use-after-free access inside the unsafe '
+                 'blocks) is not exhibited by the model; the model carries the logic (which indices index '
+                 'what, what is unshared, which slice bounds are handed out) with Rust panics as explicit '
+                 'outcomes, and the executable behaviour is compared with the real code',
+                 'the caller follows the contract of the unsafe fns (polls only tokens it holds, with their '
+                 'buffers); the device is unconstrained',
+                 'driver-level slice bounds (OwningQueue / input / sound / vsock / net / console) are '
+                 'carried by the theorems of C19Drivers, C18, C16, C15 and exercised here through their '
+                 'hostile streams'],
+ 'explanation': 'Theorems: (i) for every history with ARBITRARY device writes to the used ring, used index, '
+                'flags and event index (the device steps of the op language take any values), a '
+                'contract-following caller never sees a panic and the structural invariant (exact descriptor '
+                'accounting, pairwise disjoint chains) is preserved (hostile_device_harmless, from the '
+                'invariant proofs); a foreign or out-of-range id is rejected with WrongToken without effect; '
+                '(ii) NON-INTERFERENCE: results, platform calls, stores and the driver-private successor '
+                'state of add / pop_used / the queries do not depend on the contents of the descriptor '
+                'table, available ring, avail.idx, avail.flags, used_event (add_noninterference, '
+                'pop_noninterference, queries_noninterference). Correspondence: hostile-device stream on the '
+                'real queue (never-issued / out-of-range / u16-aliasing / repeated ids, arbitrary lengths, '
+                'index jumps, scribbling over driver-owned areas) compared with the model on results, '
+                'private state and platform events, with ledger (double unshare, unknown address) and '
+                'accounting oracles; plus the hostile / malformed streams of the event-queue, console, net '
+                'and vsock modules.',
+ 'technique': 'Lean 4 invariant + non-interference theorems over an executable model, differential '
+              'correspondence under a hostile device, ledger oracles'}
